@@ -78,6 +78,7 @@ type parent struct {
 	// confirmation state
 	confirmSem    chan struct{}
 	confirmedBad  map[string]int // kind@site -> number of confirmations alone with the long bound
+	confirmedOK   map[string]int // site of a first-stage timeout -> number of re-runs alone that returned in time
 	nConfirm      int
 	nInconclusive int
 	unattributed  int
@@ -136,6 +137,7 @@ func (p *parent) run(genFile, outFile string, workers, reps1, reps2 int, only st
 	p.outs = map[int]outcome{}
 	p.stage1 = map[int]outcome{}
 	p.confirmedBad = map[string]int{}
+	p.confirmedOK = map[string]int{}
 	p.confirmSem = make(chan struct{}, 4)
 	p.self = self
 	p.byID = map[int]job{}
@@ -426,6 +428,16 @@ func (p *parent) resolve(id int, neighbors []int) error {
 		p.mu.Unlock()
 		return nil
 	}
+	if s1.Kind == "timeout" && s1.Site != "" && p.confirmedOK[s1.Site] >= 2 && p.confirmedBad[key] == 0 {
+		// this call site is slow but has returned twice when re-run alone with the long bound: inconclusive, not judged
+		o := s1
+		o.Kind = "slow"
+		o.Msg = "[same call site returned within the long bound when re-run alone] " + o.Msg
+		p.outs[id] = o
+		p.nInconclusive++
+		p.mu.Unlock()
+		return nil
+	}
 	if p.nConfirm >= p.budget {
 		o := s1
 		o.Kind = "slow"
@@ -456,6 +468,9 @@ func (p *parent) resolve(id int, neighbors []int) error {
 		}
 		p.mu.Unlock()
 		return nil
+	}
+	if s1.Kind == "timeout" && s1.Site != "" {
+		p.confirmedOK[s1.Site]++
 	}
 	p.mu.Unlock()
 	// the request alone is fine
